@@ -49,6 +49,8 @@ CATALOGUE = [
     "arity-unknown-keyword", "shape-scalar-for-multi", "shape-nonlist-for-varpos", "shape-nonlist-for-binop",
     "shape-nonmapping-for-varkw", "two-keys-condition", "two-keys-path", "missing-path", "missing-condition",
     "non-mapping-condition", "binop-item-malformed", "cast-not-mapping", "doc-items-not-strings",
+    # a malformed sub-spec in a place whose content the object built does not use: still a malformed spec
+    "malformed-in-unused-place",
 ]
 
 
@@ -226,6 +228,13 @@ def gen_a(r, klass):
         if c < 75:
             return "cond", {r.choice(["and", "or"]): [bad, ls]}
         return "rule", {"path": ["a"], "condition": bad}
+    if klass == "malformed-in-unused-place":
+        bad_cond = r.choice([{"bogus.eq": 1}, {"foo": 1}, {"value.equal_too": 1}, {"value.length.foo": 2}])
+        if r.coin():
+            # the data-path argument of a callable that takes no argument, with an unknown part type inside
+            return place_cond({f"value.{r.choice(['truthy', 'falsy', 'null'])}": {"path": ["a", {"type": r.choice(["bogus_value", "map", ""])}]}})
+        t, f = r.choice([("map_value", "list_condition"), ("list_value", "map_condition")])
+        return place_part({"type": t, f: bad_cond})
     if klass == "binop-item-malformed":
         return "cond", {r.choice(["and", "or", "xor"]): [ls, {"foo.bar": 1}]}
     raise AssertionError(klass)
